@@ -5,4 +5,4 @@ SPEC = make("C04", "Properties.C04", ['C04_blocked_writer_unblocks', 'C04_reacha
             COMMON_RULE + "For this property additionally: single-flow scripts (one established stream, then only reads / "
             "plain, vectored and empty writes / shutdowns and message-by-message deliveries, 40-120 labels) whose read and "
             "write results are also compared with the one-direction flow model Flow/Core.v on which the multi-step "
-            "theorems are proved.", "DESIGN.md §4 C04", flow=True)
+            "theorems are proved.", "DESIGN.md §5 C04", flow=True)
